@@ -5,10 +5,11 @@ From VV Require Import lib.PyInt lib.PyFloat gen.GenScaling model.Scaling proofs
 Import ListNotations.
 Open Scope Z_scope.
 
-(* Vela pair v = (qv, sv) denotes qv * 2^-sv; reference pair t = (qt, st) denotes qt * 2^(st-31);
-   same_value v t ls :  qv * 2^-sv = (qt * 2^(st-31)) * 2^ls  (ls: a left shift folded into Vela's pair) *)
+(* Vela pair v = (qv, sv) denotes qv * 2^-sv; reference pair t = (qt, st) denotes qt * 2^(st-31).
+   same_value v t ls: the same multiplier, and the reference's left shift is 31 - sv - ls, i.e.
+   qv * 2^-sv = (qt * 2^(st-31)) * 2^ls  (ls: a left shift folded into Vela's pair) *)
 Definition same_value (v t : Z * Z) (ls : Z) : Prop :=
-  31 <= snd t + snd v + ls <= 32 /\ fst v * 2 ^ 31 = fst t * 2 ^ (snd t + snd v + ls).
+  fst v = fst t /\ snd t = 31 - snd v - ls.
 
 Lemma q_scale_vs_tfl m e k :
   0 < m ->
@@ -16,14 +17,10 @@ Lemma q_scale_vs_tfl m e k :
   fst v <> 0 -> snd v + k <= 62 -> same_value v (tfl_quantize_multiplier (Dy m e)) k.
 Proof.
   intros Hm v. subst v. rewrite q_scale_pos, tfl_pos by lia.
-  set (s := 31 - (e + k + Z.log2 m + 1)).
-  destruct (shift_ok s) eqn:E; cbn [fst snd]; [|lia]. intros _ Hk.
-  apply shift_ok_spec in E. cbv zeta. unfold same_value.
-  destruct (Z.eqb_spec (qpos m) (2 ^ 31)) as [Eq|Ne].
-  - destruct (Z.ltb_spec (e + Z.log2 m + 1 + 1) (-31)); [lia|]. cbn [fst snd].
-    replace (e + Z.log2 m + 1 + 1 + s + k) with 32 by lia. rewrite Eq. split; [lia|reflexivity].
-  - destruct (Z.ltb_spec (e + Z.log2 m + 1) (-31)); [lia|]. cbn [fst snd].
-    replace (e + Z.log2 m + 1 + s + k) with 31 by lia. split; [lia|reflexivity].
+  assert (V : vshift m (e + k) = vshift m e - k) by (unfold vshift; lia). rewrite V.
+  destruct (shift_ok (vshift m e - k)) eqn:E; cbn [fst snd]; [|lia]. intros _ Hk.
+  apply shift_ok_spec in E. unfold same_value.
+  destruct (Z.ltb_spec (31 - vshift m e) (-31)); [lia|]. cbn [fst snd]. split; [reflexivity|lia].
 Qed.
 
 (* ---------- the rounded quotient is positive ---------- *)
@@ -176,30 +173,32 @@ Proof. intro H. discriminate H. Qed.
 
 Lemma quantise_scale_accurate_Q_lemma m e :
   0 < m ->
-  let s := 31 - (e + Z.log2 m + 1) in
+  let s := vshift m e in
   0 <= s <= 63 ->
   exists q, GenScaling.quantise_scale (Dy m e) = (q, s) /\
             (Qabs (pair_Q q s - dy_Q (Dy m e)) <= Qpower 2 (-31) * dy_Q (Dy m e))%Q.
 Proof.
-  intros Hm s Hs. destruct (quantise_scale_accurate_lemma m e Hm Hs) as [q [E [_ [B1 B2]]]].
+  intros Hm s Hs. destruct (quantise_scale_accurate_lemma m e Hm Hs) as [q [E [_ [_ [B1 B2]]]]].
   exists q. split; [exact E|]. fold s in E.
-  pose proof (Z.log2_nonneg m) as HL. set (L := Z.log2 m) in *.
+  pose proof (Z.log2_nonneg m) as HL. pose proof (qn_spec m Hm) as [_ [_ HR]].
+  set (L := Z.log2 m) in *. set (r := rnd m) in *.
   unfold pair_Q, dy_Q. cbn [dm de].
   set (c := Qpower 2 (e - 31)).
   assert (Hc : (0 < c)%Q) by (apply Qpower_0_lt; reflexivity).
-  assert (P1 : (Qpower 2 (- s) == Qpower 2 (L + 1) * c)%Q).
-  { unfold c. rewrite <- Qpower_plus by exact two_nz. replace (- s) with (L + 1 + (e - 31)) by (unfold s; lia). reflexivity. }
+  assert (P1 : (Qpower 2 (- s) == Qpower 2 (L + 1 + r) * c)%Q).
+  { unfold c. rewrite <- Qpower_plus by exact two_nz.
+    replace (- s) with (L + 1 + r + (e - 31)) by (unfold s, vshift; fold L; fold r; lia). reflexivity. }
   assert (P2 : (Qpower 2 e == Qpower 2 31 * c)%Q).
   { unfold c. rewrite <- Qpower_plus by exact two_nz. replace (31 + (e - 31)) with e by lia. reflexivity. }
   assert (P3 : (Qpower 2 (-31) * (inject_Z m * Qpower 2 e) == inject_Z m * c)%Q).
   { unfold c. replace (e - 31) with (-31 + e) by lia. rewrite Qpower_plus by exact two_nz. ring. }
   assert (A : (inject_Z q * Qpower 2 (- s) - inject_Z m * Qpower 2 e ==
-               inject_Z (q * 2 ^ (L + 1) - m * 2 ^ 31) * c)%Q).
+               inject_Z (q * 2 ^ (L + 1 + r) - m * 2 ^ 31) * c)%Q).
   { rewrite P1, P2. unfold Zminus. rewrite inject_Z_plus, inject_Z_opp, !inject_Z_mult.
     rewrite !Zpower_Qpower by lia. change (inject_Z 2) with 2%Q. ring. }
   rewrite A, P3. apply Qabs_Qle_condition.
   apply Z.abs_le in B1.
-  assert (- m <= q * 2 ^ (L + 1) - m * 2 ^ 31 <= m) as [D1 D2] by lia.
+  assert (- m <= q * 2 ^ (L + 1 + r) - m * 2 ^ 31 <= m) as [D1 D2] by lia.
   rewrite Zle_Qle in D1, D2. rewrite inject_Z_opp in D1.
   split.
   - setoid_replace (- (inject_Z m * c))%Q with ((- inject_Z m) * c)%Q by ring.
